@@ -76,32 +76,56 @@ func c17r1(c *Ctx) {
 		c.viol(R, key, c.pos(reads[0]), "the already-running test (GCMgr.stat read under "+lockAt(c, hgc, reads[0])+") and the registration of the new pass are not in one critical section: the registration happens later, inside the spawned GCMgr.gc goroutine, so two requests for the same bucket can both pass the test and both start a pass")
 		return
 	}
-	// both in this function: same write-locked section, dominating the spawn
-	rl, _ := c.P.Locks().At(hgc, reads[0])
-	wl, _ := c.P.Locks().At(hgc, writes[0])
-	okLock := rl[lkGC] == "W" && wl[lkGC] == "W" && hgc.EnclosingLit(reads[0]) == hgc.EnclosingLit(writes[0])
-	noUnlock := true
-	if okLock {
-		cfg := hgc.CFGFor(reads[0])
-		passUnlock := func(n ast.Node) bool {
-			found := false
-			ast.Inspect(n, func(x ast.Node) bool {
-				if call, ok := x.(*ast.CallExpr); ok {
-					if k, l, _ := prog.LockOp(hgc.Info(), call); (k == "Unlock" || k == "RUnlock") && l == lkGC {
-						if _, isDefer := hgc.Parent(call).(*ast.DeferStmt); !isDefer {
-							found = true
+	// some test of the map and the registration lie in one write-locked section that precedes the start of the pass
+	good := false
+	for _, rd := range reads {
+		for _, wr := range writes {
+			rl, _ := c.P.Locks().At(hgc, rd)
+			wl, _ := c.P.Locks().At(hgc, wr)
+			if rl[lkGC] != "W" || wl[lkGC] != "W" || hgc.EnclosingLit(rd) != hgc.EnclosingLit(wr) {
+				continue
+			}
+			cfg := hgc.CFGFor(rd)
+			passUnlock := func(n ast.Node) bool {
+				found := false
+				ast.Inspect(n, func(x ast.Node) bool {
+					if call, ok := x.(*ast.CallExpr); ok {
+						if k, l, _ := prog.LockOp(hgc.Info(), call); (k == "Unlock" || k == "RUnlock") && l == lkGC {
+							if _, isDefer := hgc.Parent(call).(*ast.DeferStmt); !isDefer {
+								found = true
+							}
+						}
+					}
+					return true
+				})
+				return found
+			}
+			c.Paths += 2
+			if !cfg.ReachesWithout(rd, wr, passUnlock) {
+				continue // every path from the test to the registration drops the lock in between
+			}
+			// the registration happens only when the test found no running pass
+			info := hgc.Info()
+			guarded := false
+			for _, a := range hgc.GuardsAt(wr) {
+				if a.Op == token.ILLEGAL && a.Neg {
+					for _, s := range hgc.SourcesAt(a.X, wr) {
+						if s.Expr != nil && prog.MentionsField(info, s.Expr, "store.GCMgr.stat") {
+							guarded = true
 						}
 					}
 				}
-				return true
-			})
-			return found
+			}
+			if !guarded {
+				continue
+			}
+			if hgc.EnclosingLit(wr) != nil || hgc.CFG().Dominates(wr, spawn) {
+				good = true
+			}
 		}
-		noUnlock = !pathPasses(cfg, reads[0], writes[0], passUnlock)
 	}
-	dom := hgc.EnclosingLit(writes[0]) != nil || hgc.CFG().Dominates(writes[0], spawn)
-	c.check(okLock && noUnlock && dom, R, key, c.pos(writes[0]), "test and registration under one write-locked GCMgr.mu section before the pass starts",
-		"the test of GCMgr.stat and the registration are not inside one write-locked section of GCMgr.mu that precedes the start of the pass")
+	c.check(good, R, key, c.pos(writes[0]), "test and registration under one write-locked GCMgr.mu section before the pass starts",
+		"no test of GCMgr.stat shares a write-locked section of GCMgr.mu with the registration that precedes the start of the pass: two requests can both pass the test")
 }
 
 // pathPasses: is there a path from a to b that passes a node satisfying p?
